@@ -9,10 +9,13 @@ def _c04_case(c):
     return {"raw": c[:2000]}
 
 
+import copyvm as _copyvm
+
 CONFIG = {
+    "post_model": _copyvm.vm_sample("GC04"),
     "properties_file": "Properties/C04.v",
-    "proof_files": ["Base/Prelude.v", "Proofs/CopySpec.v", "Proofs/CopyAcct.v"],
-    "model_files": ["Generated/GC04.v", "Model/CopySpec.v", "Model/CopyTop.v"],
+    "proof_files": ["Base/Prelude.v", "Proofs/CopySpec.v", "Proofs/CopyAcct.v", "Proofs/CopyOpt.v"],
+    "model_files": ["Generated/GC04.v", "Model/CopySpec.v", "Model/CopyTop.v", "Model/CopyOpt.v"],
     "extract": "XC04.v",
     "ml_main": "c01_main.ml",
     "harness_test": True,
@@ -21,6 +24,8 @@ CONFIG = {
     "timeout_quick": 600,
     "timeout_thorough": 3000,
     "assumptions": [
+        "optional callbacks: which of PreCopy/PostCopy/OnCopySkipped/OnMounted/MountFrom (and FindSuccessors, MapRoot) are nil is chosen per run, including all nil = default options; a recorded trace then has no events for nil callbacks and is elaborated by Model/CopyOpt.step_opt (the invocation points of nil callbacks are inserted, an event of a nil callback is rejected); the *_any_callbacks theorems hold for every such choice",
+        "ExtendedCopyGraph / ExtendedCopy: the roots above the node (generator's predecessor relation; findRoots itself is C03's) are the model's c_root :: c_xroots, dispatched together and sharing tracker, proxy and limiter; the final Tag of ExtendedCopy is checked by the oracle only",
         "semaphore.Weighted / errgroup / syncutil.Go / LimitedRegion are modelled by their visible effect only: a task is 'active' between the first and last visible event of a segment in which it certainly holds a permit (the real permit is acquired earlier and released later), and at most K tasks are active; the permit protocol itself (held + free = K, End/Start idempotence) is NOT modelled (DESIGN's CopyImpl / C04_permits is not built)",
         "status.Tracker.TryCommit single ownership is modelled as one phase per node, tied to the code by trace acceptance (a second Exists/Fetch/Push of a node is rejected) and by the oracle's per-node counters",
         "a source read is in flight from the call of Fetch until Close of the returned reader (for manifests Close also joins the cache push); a destination operation from call to return of Exists/Push/PushReference/Tag",
